@@ -7,6 +7,7 @@
 """
 List field
 """
+import copy
 import inspect
 from typing import Any, Iterable, List, Optional, Type, Union
 
@@ -170,6 +171,9 @@ class ListField(Field):
     def __setdefault__(self, cfg: Config) -> None:
         default = self.default
         if isinstance(default, list):
+            # each configuration gets its own copy of the declared default, at every depth:
+            # mutable items (nested lists, dicts) would otherwise be shared by all configurations
+            default = copy.deepcopy(default)
             if self.field:
                 default = ListProxy(cfg, self, default)
             else:
